@@ -18,6 +18,7 @@ EXPLANATION = (
     "idle_time = sum of gaps per category, ratio = idle_time / their total; the launch timestamp is the ts of the event whose id is the kernel's "
     "index_correlation (left join, suffix agreement); device rows and kernel categories selected; enum values written = values the name map reads; "
     "every wrapper argument is bound to the like-named parameter. Non-overlap of kernels within a stream is an input assumption."
+    " Later additions: effect rules; facade defaults are never resolved from one rank's trace; the wrapper keeps no result cache."
 )
 BA = "hta.analyzers.breakdown_analysis"
 
